@@ -219,9 +219,24 @@ def execute(item, only=None):
             stats["calls"] += 2
             if r1 != r2:
                 rep("%s:reset-then-charge" % model, "after reset() charge() returns %r, a fresh battery %r" % (r1, r2), r1, r2, ctx)
+            # the same object charged with ANOTHER period length behaves like a fresh battery too
+            T_other = Ts[(Ts.index(T) + 1) % len(Ts)] if T in Ts else T * 2
+            b.reset()
+            r3 = b.charge(pilot, V, T_other)
+            r4 = make(model, cap, charge0, pmax, ts).charge(pilot, V, T_other)
+            stats["calls"] += 2
+            if r3 != r4:
+                rep("%s:period-change-on-one-object" % model, "after charging with T=%r and reset(), charge(T=%r) returns %r, a fresh battery %r" % (T, T_other, r3, r4), r3, r4, ctx)
             b.reset(0.25 * cap)
             if b._current_charge != 0.25 * cap or b.current_charging_power != 0:
                 rep("%s:reset-to-value" % model, "reset(x) left charge %r, power %r" % (b._current_charge, b.current_charging_power), b._current_charge, 0.25 * cap, ctx)
+            # an explicit reset(x) does not redefine the initial state
+            b.charge(pilot, V, T)
+            b.reset()
+            stats["calls"] += 1
+            if b._current_charge != charge0 or b.current_charging_power != 0:
+                rep("%s:reset-after-reset-to-value" % model, "reset(x) followed by reset() restores %r, the initial charge is %r" % (b._current_charge, charge0), b._current_charge, charge0, ctx)
+            b.reset(0.25 * cap)
             try:
                 b.reset(cap * 1.5)
                 rep("%s:reset-above-capacity-accepted" % model, "reset above capacity accepted", None, "ValueError", ctx)
